@@ -97,6 +97,15 @@ def main():
         return do_check(sys.argv[2:])
     if sys.argv[1] == "setup":
         return do_setup(sys.argv[2:])
+    if sys.argv[1] == "build":
+        ts = [os.path.join(common.TH, a) for a in sys.argv[2:]]
+        with common.Lock():
+            ok, logs, failed = common.coq_build(ts, force=ts)
+        for v, (r, out, secs) in logs.items():
+            print("coqc %-40s rc=%d %.1fs" % (os.path.relpath(v, common.TH), r, secs))
+            if r != 0 or v in ts:
+                print(out[-6000:])
+        return 0 if ok else 1
     print(__doc__)
     return 2
 
